@@ -91,6 +91,12 @@ def build_inputs(bits):
     if e["d_e2"]:
         fields["D"].append("e2: [E2!]")
         enum_of["D"].append("E2")
+        # the same enums are also used by later-declared inputs (shared enum: the first user may be pruned, a later one kept)
+        fields["C"].append("e2c: E2")
+        enum_of["C"].append("E2")
+    if e["b_e1"]:
+        fields["D"].append("e1d: E1! = Y1")
+        enum_of["D"].append("E1")
     for n in NODES:
         fields[n].append("v: Int")
     sdl = "\n".join(f"input {n} {{ {' '.join(fields[n])} }}" for n in NODES)
